@@ -436,6 +436,9 @@ def e2_e3(ctx, prog, bodies):
     encs = [prog.flat(b.defp) for b in bodies if b.root == b.defp and b.argc == 2 and "Address" in b.local_ty(1) and "BytesMut" in b.local_ty(2)]
     encs = [b for b in encs if "put_u16" in {c.method for (_, c, _) in b.calls()} and "put_u8" in {c.method for (_, c, _) in b.calls()} and
             any(s_["k"] == "assign" and s_["rv"]["k"] == "discr" for blk in b.rpo() for s_ in b.stmts(blk))]
+    # of several candidates the innermost is the encoder (a caller that splices it in is a user of the encoder, not an encoder)
+    enc_defs = {b.defp for b in encs}
+    encs = [b for b in encs if not any(o in enc_defs and o != b.defp for o in set(b.origin))]
     decs = [prog.flat(b.defp) for b in bodies if b.root == b.defp and b.argc == 1 and "Address" in b.local_ty(0)]
     decs = [b for b in decs if len(variant_regions_decoder(b)[0]) == 3]
     ctx.floor("E3", "address encoders", 2, len(encs))
